@@ -77,7 +77,7 @@ def decode_op(t):
 
 
 def strategy():
-    op = st.tuples(st.integers(0, 10), st.integers(0, 16 * 6 * 4096 * 8 - 1)).map(decode_op)
+    op = st.tuples(st.integers(0, 10), worldops.packed(16 * 6 * 4096 * 8)).map(decode_op)
     # amp: 0, or how many layers every push_layer operation pushes (maps with dozens of handle layers, as repeated
     # population with nesting produces)
     return st.fixed_dictionaries({'ops': worldops.chunked(op, 40),
